@@ -3,3 +3,8 @@ from .heapmodel import register_record, register_object
 
 register_record("ArtifactKitPayload", {"offset": "int", "size": "int", "xorkey": "bytes", "hints": "bytes",
                                        "payload": "bytes"}, "dissect.cobaltstrike.artifact")
+
+register_record("HttpRequest", {"method": "bytes", "uri": "bytes", "params": "any", "headers": "any", "body": "bytes"},
+                "dissect.cobaltstrike.c2")
+register_record("HttpResponse", {"status": "int", "headers": "any", "reason": "bytes", "body": "bytes",
+                                 "request": "opt[record[HttpRequest]]"}, "dissect.cobaltstrike.c2")
